@@ -90,7 +90,7 @@ class Frame:
 
 
 class VM:
-    def __init__(self, mir, ex, fuel=2_000_000, max_depth=200):
+    def __init__(self, mir, ex, fuel=2_000_000, max_depth=3000):
         self.mir, self.ex = mir, ex
         self.dpos = 0          # decision position on the trail
         self.ev = 0            # constraint events so far
@@ -792,8 +792,11 @@ class VM:
                     if c.endswith(f2.name.split('::')[-2] + '::promoted[' + m.group(1) + ']') if '::promoted' in f2.name else False: pf = f2; break
             if pf is None: raise Unmodelled('promoted? ' + c)
             return self.run_fn(pf, [], fr.subst)
+        if c.startswith(('std::iter::Empty', 'core::iter::Empty')): return It('empty')
+        if c.startswith(('std::marker::PhantomData', 'PhantomData')): return Adt('PhantomData', 0, [])
         # unit-like enum variant or unit struct constant
         cc = canon(c)
+        if c.startswith(('std::', 'core::', 'alloc::')) and not any(x in c for x in ('option::Option', 'result::Result', 'cmp::Ordering', 'borrow::Cow')): raise Unmodelled('const of a std type: ' + c[:120])
         segs = [x for x in self._path_segments(cc) if not x.startswith('<')]
         enums = self.mir.src.enums
         if len(segs) >= 2 and segs[-2] in enums and segs[-1] in enums[segs[-2]]:
